@@ -795,6 +795,43 @@ func runExactMixedCompare(c *Ctx, r *Rep) {
 		walk(cond)
 		return lo && hi
 	}
+	// is cond true exactly when obj lies outside bounds within +-2**53?  (b < -K || b > K)
+	outside := func(cond ast.Expr, obj types.Object) bool {
+		lo, hi := false, false
+		var walk func(e ast.Expr)
+		walk = func(e ast.Expr) {
+			be, ok := unparen(e).(*ast.BinaryExpr)
+			if !ok {
+				return
+			}
+			if be.Op == token.LOR {
+				walk(be.X)
+				walk(be.Y)
+				return
+			}
+			for _, s := range []struct {
+				v, k ast.Expr
+				op   token.Token
+			}{{be.X, be.Y, be.Op}, {be.Y, be.X, flipOp(be.Op)}} {
+				id, ok := unparen(s.v).(*ast.Ident)
+				if !ok || info.ObjectOf(id) != obj {
+					continue
+				}
+				k := constInt(s.k)
+				if k == nil || new(big.Int).Abs(k).Cmp(lim) > 0 {
+					continue
+				}
+				switch s.op {
+				case token.LSS, token.LEQ:
+					lo = true // leaves below: what remains is >= -K
+				case token.GTR, token.GEQ:
+					hi = true
+				}
+			}
+		}
+		walk(cond)
+		return lo && hi
+	}
 	// the conversions of obj to a float inside body that are not under a bounding if
 	var unguarded func(n ast.Node, obj types.Object, guarded bool, out *[]ast.Node)
 	unguarded = func(n ast.Node, obj types.Object, guarded bool, out *[]ast.Node) {
@@ -805,7 +842,30 @@ func runExactMixedCompare(c *Ctx, r *Rep) {
 			unguarded(is.Init, obj, guarded, out)
 			unguarded(is.Cond, obj, guarded, out)
 			unguarded(is.Body, obj, guarded || bounded(is.Cond, obj), out)
-			unguarded(is.Else, obj, guarded, out)
+			if is.Else != nil {
+				unguarded(is.Else, obj, guarded || outside(is.Cond, obj), out)
+			}
+			return
+		}
+		// statement lists: what follows `if <outside the bounds> { leave }` is inside them
+		var list []ast.Stmt
+		switch b := n.(type) {
+		case *ast.BlockStmt:
+			list = b.List
+		case *ast.CaseClause:
+			for _, e := range b.List {
+				unguarded(e, obj, guarded, out)
+			}
+			list = b.Body
+		}
+		if list != nil {
+			g := guarded
+			for _, st := range list {
+				unguarded(st, obj, g, out)
+				if is, ok := st.(*ast.IfStmt); ok && is.Else == nil && blockTerminates(is.Body) && outside(is.Cond, obj) {
+					g = true
+				}
+			}
 			return
 		}
 		if call, ok := n.(*ast.CallExpr); ok {
@@ -888,9 +948,7 @@ func runExactMixedCompare(c *Ctx, r *Rep) {
 					continue
 				}
 				var bad []ast.Node
-				for _, s := range cc.Body {
-					unguarded(s, obj, false, &bad)
-				}
+				unguarded(&ast.BlockStmt{List: cc.Body}, obj, false, &bad)
 				if len(bad) > 0 {
 					return false, fmt.Sprintf("its %s arm converts the operand to a float (`%s`) outside a magnitude test against constants within +-2**53", nm, nodeStr(bad[0])), bad[0].Pos()
 				}
